@@ -236,9 +236,31 @@ package flow
 //@ guarded tcMap by tcMux {C15}
 //@ guarded currentRules by updateRuleMux {C15}
 
-// called by LoadRulesOfResource with the update lock held (C15); its effect is not specified here
-//@ func onResourceRuleUpdate(res, rawResRules) err
+// The validator and the controller builder are not under contract here (floats, user-registered generator functions):
+// assumed not to write anything that existed before, except that the builder edits the list it is GIVEN in place.
+//@ func IsValidRule(rule) err
 //@   assumed
+//@   panics never
+//@   modifies nothing
+//@ func buildResourceTrafficShapingController(res, rulesOfRes, oldResTcs) r
+//@   assumed
+//@   panics may
+//@   ensures cap(r) == 0 || fresh(base(r))
+//@   modifies elems(oldResTcs)
+
+// Per-resource load, called by LoadRulesOfResource with the update lock held. A list that has been published in
+// tcMap is never edited again (requests that took it under the read lock keep reading it without a lock: C15
+// "decided entirely by the old or the new list"); other resources' entries stay as they are; the raw list is recorded.
+//@ func onResourceRuleUpdate(res, rawResRules) err
+//@   props C13, C15
 //@   requires[holds-the-update-lock]{C15} wlockcount(updateRuleMux) > 0
-//@   modifies heap
+//@   requires tcMap != nil && currentRules != nil && tcMap != currentRules && allocated(base(tcMap[res]))
+//@   let published = tcMap[res]
+//@   ensures[published-list-not-rewritten] forall k Int :: 0 <= k && k < len(published) ==> published[k] == old(published[k])
+//@   ensures[raw-recorded] err == nil ==> currentRules[res] == rawResRules
+//@   ensures[other-resources-untouched] forall s Str :: s != res ==> has(tcMap, s) == old(has(tcMap, s)) && tcMap[s] == old(tcMap[s])
+//@   modifies mapof(tcMap), mapof(currentRules)
+//@   loop 1:
+//@     invariant[valid-list-is-private] cap(validResRules) == 0 || fresh(base(validResRules))
+//@     invariant[nothing-written] frame()
 //@ lockorder updateRuleMux tcMux {C15}
